@@ -3,7 +3,7 @@ ALL = ["C%02d" % i for i in range(1, 37)]
 
 BASELINE_OFF = ("cd /repo && GOFLAGS=-mod=mod GOPROXY=off GOSUMDB=off GOTOOLCHAIN=local "
                 "go test -json -vet=off -count=1 -timeout 25m ./...")
-HOOK_COMMITS = ["d9bd3981", "91affb0d"]
+HOOK_COMMITS = ["d9bd3981", "91affb0d", "895625aa"]
 
 NOTES = ("Every check: TLC design check of the TLA+ module, then TLC-generated behaviours replayed against /repo's "
          "working tree (harness rebuilt on every run with -tags verif) and/or recorded traces validated by TLC. "
@@ -19,6 +19,35 @@ _MC = ("TLC explores the bounded %s specification exhaustively (design check of 
        "real bio-rd objects with the complete projected state compared after each step")
 
 CHECKS = {
+    "C10": {
+        "text": _MC % "Sender" + " (invariants Converged: queue empty => peer view = Adj-RIB-Out, QueueWithinAdjOut, NoStale; TLC explores "
+                "every interleaving of AddPath/RemovePath with single buckets of a round and complete flushes; liveness under weak "
+                "fairness in the thorough tier). Real object: the production UpdateSender (constructed through a verif-tagged "
+                "constructor hook) bound to a capturing connection; the captured UPDATE stream is decoded by an independent strict "
+                "reference decoder and folded into the peer's view after every step; each behaviour is run 6 times (bucket order is Go "
+                "map order) and also with the periodic sender goroutine running.",
+        "note": "Trusted: TLC, the reference decoder harness/wire, the hook constructor (it calls newUpdateSender). A single bucket of the "
+                "periodic round has no public trigger: rounds are triggered through EndOfRIB() (flush of all buckets) or the real ticker.",
+        "technique": "TLA+ spec Sender + TLC (safety exhaustively, liveness under fairness); behaviour replay against the real UpdateSender with wire capture",
+    },
+    "C17": {
+        "text": "WireTx defines byte-exact attribute and message sizes and the attribute set per session kind; TLC enumerates the classes "
+                "around every encoding boundary (255/256-byte values, 255 ASNs per segment, CLUSTER_LIST/communities/unknown attributes, "
+                "4096 bytes). Each case runs through the production path UpdateSender -> PathAttributes -> SerializeUpdate; every "
+                "emitted message must be accepted by the strict independent reference decoder, be <= 4096 bytes, carry exactly the "
+                "case's attributes with the sizes the spec computes, and be read back by packet.Decode with the session's options. "
+                "OPEN/KEEPALIVE/NOTIFICATION well-formedness is checked by the session-level checks (every byte the server writes goes "
+                "through the same reference decoder).",
+        "note": "Trusted: harness/wire (independent codec), the size arithmetic of WireTx (bound to the code by the size comparison).",
+        "technique": "TLA+ spec WireTx enumerated by TLC; per-case replay through UpdateSender with an independent reference decoder",
+    },
+    "C18": {
+        "text": "As C17 with many prefixes (1..3000) and attribute sizes from tiny to within a few bytes of the limit: the UPDATEs emitted "
+                "for a queued bundle must announce exactly the queued prefixes, each once, each message <= 4096 bytes with the queued "
+                "attributes (IPv4 classic, IPv6 multiprotocol, add-path).",
+        "note": "Trusted: as C17.",
+        "technique": "TLA+ spec WireTx enumerated by TLC; per-case replay through UpdateSender with an independent reference decoder",
+    },
     "C34": {
         "text": "ApiConv defines ApiFields(p) (what the API schema carries; nil and empty lists identified) over records of field classes; "
                 "TLC enumerates every record within 2 field changes of the base plus seeded random records; each goes through the real "
